@@ -114,6 +114,9 @@ def spellings():
                 extra.append(dict(name=f"addr;{tok}", text=f"{{ mem_store_u16({tokc}, {src}); {dst} = (int64_t) mem_load_s8({tokc}); }}", expect=[]))
             extra.append(dict(name=f"data;{tok}", text=f"{{ mem_store_u64({'RsV' if slot != 's' else 'RtV'}, {tokc}); }}", expect=[]))
     out.extend(extra)
+    # address expressions that are 64 bit wide: the effective address is their low 32 bits
+    for k, a in enumerate(["RssV", "RssV + 8", "RsV + 4LL", "(int64_t) RsV", "RsV + RuuV", "(RssV >> 4)"]):
+        out.append(dict(name=f"addr64;{k}", text=f"{{ mem_store_u16({a}, RtV); RddV = (int64_t) mem_load_s8({a}); ReV = mem_load_u32({a}); }}", expect=[]))
     out.append(dict(name="jump;32", text="{ JUMP(RsV); }", expect=[("jump",)]))
     out.append(dict(name="jump;64", text="{ JUMP(RssV + 4); }", expect=[("jump",)]))
     out.append(dict(name="jump;cond", text="{ if (PuV & 1) { JUMP(HEX_REG_ALIAS_PC + riV); } }", expect=[("jump",)]))
